@@ -305,6 +305,60 @@ def overlapping_and_repeated(run, tier, rng):
                      f"among 64 active particles: {int(np.sum(asg != own)) if asg.shape == own.shape else 'all'} carry a label that is not the cluster of their position", **what)
 
 
+def kernel_label_probe(run, tier, rng):
+    """parallel_mcmc with three narrow modes of which only some are occupied by active particles (labels {0,2}, {2}, {1,2}): the
+    runner must work with the labels it was given - the first tpCN proposal with zero noise lies on the segment between the
+    walker and ITS mode's location, and the runner's own label array equals the one passed in."""
+    import tempest.mcmc as mc
+    from tempest.modes import ModeStatistics
+    means = np.array([[0.2, 0.2], [0.5, 0.8], [0.8, 0.3]])
+    covs = np.array([np.eye(2) * 0.01 ** 2] * 3)
+    ms = ModeStatistics(means, covs, np.array([5.0, 5.0, 5.0]))
+    like = lambda X: (np.array([-0.5 * float(np.sum((v - 0.5) ** 2)) for v in X]), None)
+    seen = {}
+    orig_run = mc.BaseMCMCRunner.run
+
+    def spy(self):
+        seen["assignments"] = np.asarray(self.assignments).copy()
+        seen["first"] = np.array([self._propose(k) for k in range(self.n_walkers)]) if isinstance(self, mc.TPCNRunner) else None
+        return orig_run(self)
+    orig_randn, orig_gamma = np.random.randn, np.random.gamma
+    mc.BaseMCMCRunner.run = spy
+    try:
+        for labels in ([0, 2, 2, 0, 2], [2, 2, 2, 2], [1, 2, 1, 2, 2, 1]):
+            asg = np.array(labels)
+            u0 = np.clip(means[asg] + 0.02, 0.01, 0.99)
+            logl, _ = like(u0)
+            for kind in ("tpcn", "rwm"):
+                seen.clear()
+                np.random.randn = lambda *a: np.zeros(a) if a else 0.0
+                np.random.gamma = lambda shape=None, scale=None, *a, **k: 1.0
+                try:
+                    np.random.seed(1)
+                    mc.parallel_mcmc(u=u0.copy(), x=u0.copy(), logl=logl.copy(), blobs=None, assignments=asg.copy(), beta=1.0, mode_stats=ms,
+                                     log_likelihood=like, prior_transform=lambda v: v, progress_bar=None, n_steps=1, n_max=1, sample=kind,
+                                     periodic=None, reflective=None, verbose=False)
+                finally:
+                    np.random.randn, np.random.gamma = orig_randn, orig_gamma
+                run.case(key=("kernel-labels", kind, tuple(labels)), nontrivial=True)
+                what = dict(probe="partially occupied modes", kernel=kind, labels=labels)
+                if not np.array_equal(seen.get("assignments"), asg):
+                    run.fail("label-of-another-cluster", f"the {kind} runner works with labels {None if seen.get('assignments') is None else seen['assignments'].tolist()} "
+                             f"although it was given {labels}: walkers are moved with another mode's statistics", **what)
+                    continue
+                if kind == "tpcn" and seen.get("first") is not None:
+                    # zero noise: proposal - mu = a (u - mu) with 0 <= a <= 1, for the walker's OWN mode
+                    for k_ in range(len(asg)):
+                        mu = means[asg[k_]]
+                        v, d0 = seen["first"][k_] - mu, u0[k_] - mu
+                        a_ = float(v @ d0 / (d0 @ d0))
+                        if not (np.allclose(v, a_ * d0, atol=1e-12) and -1e-12 <= a_ <= 1 + 1e-12):
+                            run.fail("label-of-another-cluster", f"tpCN proposal of walker {k_} (label {asg[k_]}) is not a contraction towards its own mode", **what)
+                            break
+    finally:
+        mc.BaseMCMCRunner.run = orig_run
+
+
 def tiny_beta_probe(run, tier, rng):
     """kernel-entry checks at the smallest positive temperature: every step must treat it as an annealing iteration"""
     for rep in range(1 if tier == "quick" else 4):
@@ -547,6 +601,7 @@ def main(tier, seed):
         tiny_beta_probe(run, tier, rng)
         tiny_beta_steps(run, tier, rng)
         overlapping_and_repeated(run, tier, rng)
+        kernel_label_probe(run, tier, rng)
     except Exception:
         import traceback
         run.broken.append(("harness-exception", traceback.format_exc()[-1500:]))
